@@ -36,28 +36,31 @@ type namedTerm struct {
 }
 
 type Exec struct {
-	prog        *ssa.Program
-	pkgs        map[string]*ssa.Package
-	contracts   map[string]*Contract
-	objs        []objInfo
-	nextCell    int
-	globalCells map[*ssa.Global]int
-	globalVals  map[int]Value
-	globalHeap  map[int]*Term
-	obls        []*Obligation
-	mode        string // "L3" (accessors by contract) or "L2" (raw store)
-	top         *ssa.Function
-	topC        *Contract
-	sweep       bool
-	pathCount   int
-	maxPaths    int
-	unmodelled  map[string]int
-	l0used      map[string]int
-	inInit      bool
-	prop        string // property being checked ("" = all clauses)
-	inputs      []namedTerm
-	fnNotes     map[string][]string
-	pathTrace   []string
+	prog         *ssa.Program
+	pkgs         map[string]*ssa.Package
+	contracts    map[string]*Contract
+	objs         []objInfo
+	nextCell     int
+	globalCells  map[*ssa.Global]int
+	globalVals   map[int]Value
+	globalHeap   map[int]*Term
+	obls         []*Obligation
+	mode         string // "L3" (accessors by contract) or "L2" (raw store)
+	top          *ssa.Function
+	topC         *Contract
+	sweep        bool
+	pathCount    int
+	maxPaths     int
+	unmodelled   map[string]int
+	l0used       map[string]int
+	inInit       bool
+	prop         string // property being checked ("" = all clauses)
+	topPre       *State
+	topVars      map[string]Value
+	resumeHeader *ssa.BasicBlock
+	inputs       []namedTerm
+	fnNotes      map[string][]string
+	pathTrace    []string
 }
 
 func NewExec(prog *ssa.Program, pkgs map[string]*ssa.Package, contracts map[string]*Contract) *Exec {
